@@ -1667,3 +1667,31 @@ MUTANTS += [
  dict(id='R13-addressee-lowercased', props=['C10'], expect='R-ADDRESSEE-VERBATIM/addressee-verbatim/',
       edits=[(TS, '\t\tif env.To != "" {\n\t\t\t// Targeted send\n', '\t\tenv.To = strings.ToLower(env.To)\n\t\tif env.To != "" {\n\t\t\t// Targeted send\n')]),
 ]
+# ---- round 14 ----
+TA = 'internal/app/transport_auth.go'
+WSC = 'internal/wsclient/conn.go'
+MUTANTS += [
+ dict(id='R14-markunconfirmed-without-dirty', props=['C05'], expect='R-DIRTY-AFTER-CHANGE/dirty/MarkUnconfirmed',
+      edits=[(SC, '\ts.unconfirmed = append(s.unconfirmed, i)\n\ts.dirty = true\n', '\ts.unconfirmed = append(s.unconfirmed, i)\n')]),
+ dict(id='R14-benign-confirm-dirty-first', props=['C04', 'C05'], expect='SILENT',
+      edits=[(SC, '\ts.unconfirmed = nil\n\ts.dirty = true\n', '\ts.dirty = true\n\ts.unconfirmed = nil\n')]),
+ dict(id='R14-benign-offset-through-alias', props=['C01', 'C19'], expect='SILENT',
+      edits=[(MS, 'offset := int64(chunkIndex) * int64(state.chunkSize)\n\t\t\t\tn, err := readAtWithPool', 'cs := state.chunkSize\n\t\t\t\toffset := int64(chunkIndex) * int64(cs)\n\t\t\t\tn, err := readAtWithPool')]),
+ dict(id='R14-benign-wss-lowercased-prefix', props=['C16'], expect='SILENT',
+      edits=[(WS, 'scheme := strings.Replace(u.Scheme, "http", "ws", 1)\n\tif scheme == "ws" && u.Scheme == "https" {', 'scheme := "ws"\n\tif strings.HasPrefix(strings.ToLower(serverURL), "https://") {')]),
+ dict(id='R14-benign-burst-floor-moved-for-all', props=['C16', 'C14'], expect='SILENT',
+      edits=[(SRV, '\tif burst < 1 {\n\t\tburst = 1\n\t}\n\treturn &tokenBucket{', '\treturn &tokenBucket{'),
+             (SRV, '\treturn serverLimits{\n', '\tif cfg.WSConnectsBurst < 1 {\n\t\tcfg.WSConnectsBurst = 1\n\t}\n\tif cfg.WSMsgsBurst < 1 {\n\t\tcfg.WSMsgsBurst = 1\n\t}\n\tif cfg.SessionCreatesBurst < 1 {\n\t\tcfg.SessionCreatesBurst = 1\n\t}\n\treturn serverLimits{\n')]),
+ dict(id='R14-msg-burst-from-connect-burst', props=['C14'], expect='R-LIMITS-ONE-TO-ONE/limits-paired/',
+      edits=[(SRV, 'msgBurst:                cfg.WSMsgsBurst,', 'msgBurst:                cfg.WSConnectsBurst,')]),
+ dict(id='R14-benign-count-guard-strict', props=['C19'], expect='SILENT',
+      edits=[(MS, 'return (fileSize+int64(chunkSize)-1)/int64(chunkSize) <= math.MaxUint32', 'return (fileSize+int64(chunkSize)-1)/int64(chunkSize) < math.MaxUint32+1')]),
+ dict(id='R14-count-guard-maxint32', props=['C19'], expect='R-COUNT-GUARD-EXACT/count-guard/',
+      edits=[(MS, 'return (fileSize+int64(chunkSize)-1)/int64(chunkSize) <= math.MaxUint32', 'return (fileSize+int64(chunkSize)-1)/int64(chunkSize) <= math.MaxUint32+1')]),
+ dict(id='R14-auth-code-lowercased-copy', props=['C08'], expect='R-AUTH-CODE-VERBATIM/auth-code/key',
+      edits=[(TA, 'mac := hmac.New(sha256.New, []byte(joinCode))\n\t_, _ = mac.Write(ekm)', 'mac := hmac.New(sha256.New, []byte(strings.ToLower(joinCode)))\n\t_, _ = mac.Write(ekm)')]),
+ dict(id='R14-close-socket-before-drain', props=['C10'], expect='R-CLOSE-AFTER-DRAIN/close-drain/',
+      edits=[(WSC, '\tclose(c.sendChan)\n\t<-c.done // Wait for write loop to finish\n\tc.writeMu.Lock()\n\tdefer c.writeMu.Unlock()\n\treturn c.conn.Close()', '\tclose(c.sendChan)\n\tc.writeMu.Lock()\n\tdefer c.writeMu.Unlock()\n\terr := c.conn.Close()\n\t<-c.done // Wait for write loop to finish\n\treturn err')]),
+ dict(id='R14-nil-guard-dropped-at-confirm', props=['C15'], expect='R-SIDECAR-NIL-GUARD/sidecar-nil/',
+      edits=[(MS, 'if state.sidecar == nil {\n\t\t\t// No resume metadata was attached when the file began: nothing is', 'if state.sidecar == nil && state.totalChunks == 0 {\n\t\t\t// No resume metadata was attached when the file began: nothing is')]),
+]
